@@ -64,9 +64,11 @@ def ns() -> Dict[str, Any]:
     return {"measured": measured}
 
 
-def replay(lc: str, rc: str, qc: str, k: int) -> str:
+def replay(lc: str, rc: str, qc: str, k: int, earlier: Any = None) -> str:
+    pre = "" if not earlier else (f"# what the process had asked for before (another reference of the same family)\n"
+                                  f"print('earlier:', (1 * {earlier[1]}).level({lc}[{earlier[0]}]))\n")
     return families.REPLAY_IMPORTS + f"""import math, measured.music
-LU = {lc}[{rc}]
+{pre}LU = {lc}[{rc}]
 QU = {qc}
 base, prefix = LU.logarithm.base, LU.logarithm.prefix
 pv = float(prefix.base) ** prefix.exponent if prefix.base else 1.0
@@ -132,9 +134,16 @@ def worker(task: List[Tuple]) -> Dict[str, Any]:
     P = acc.P
     absz = lambda e: z3.If(e >= 0, e, -e)
     with symnum.Shims():
-        for (lname, rc, qc, k_phys) in task:
+        for item in task:
+            (lname, rc, qc, k_phys), earlier = item[:4], (item[4] if len(item) > 4 else None)
             lc = LOGS[lname]
             LG = eval(lc, n_)
+            if earlier:
+                # history: a level on another reference of the same family was asked for first
+                try:
+                    (1 * eval(earlier[1], n_)).level(LG[eval(earlier[0], n_)])
+                except Exception:
+                    pass
             ref = eval(rc, n_)
             LU = LG[ref]
             QU = eval(qc, n_)
@@ -146,8 +155,8 @@ def worker(task: List[Tuple]) -> Dict[str, Any]:
             if rho is None:
                 raise symnum.HarnessError(f"oracle cannot relate {qc} to the reference unit")
             r0 = Fraction(refu.magnitude)
-            label = f"{lname}[{rc}] of {families.show(QU)}"
-            rp = replay(lc, rc, qc, k_phys)
+            label = f"{lname}[{rc}] of {families.show(QU)}" + (f" after a level on {earlier[0]}" if earlier else "")
+            rp = replay(lc, rc, qc, k_phys, earlier)
 
             def ask(cond: Any, goal: Any, name: str, sig: str) -> None:
                 r, _ = P.check(cond, z3.Not(goal))
@@ -285,7 +294,14 @@ def tasks_for(tier: str) -> List[List[Tuple]]:
     if tier != "thorough":
         # every reference dimension of the physical classification, under two families
         cfgs += [(ln_, rc, qc, k) for ln_ in ("decibel", "neper") for (rc, qc, k) in REFS[9:]]
-    return [ch for ch in par.chunks(cfgs, 32)]
+    chunks = [ch for ch in par.chunks(cfgs, 32)]
+    # histories: within one process, a power reference after a root-power reference of the same family
+    # and the other way round (what was asked before must not change the answer)
+    w, v = REFS[0], REFS[4]
+    for ln_ in (("decibel", "neper", "semitone") if tier != "thorough" else names):
+        chunks.append([(ln_, v[0], v[1], v[2], (w[0], w[1]))])
+        chunks.append([(ln_, w[0], w[1], w[2], (v[0], v[1]))])
+    return chunks
 
 
 def main(tier: str, selftest_cases: int = 0) -> int:
